@@ -235,8 +235,9 @@ package stats
 // Standard library (A3): assumed contracts, audited by sampling only.
 
 //@ assume func sort.Float64s
-//@   trusted standard library: sorts its argument in place and touches nothing else
+//@   trusted standard library: sorts its argument in place (a permutation: finite values stay finite) and touches nothing else
 //@   ensures sortedF(x)
+//@   ensures old(forall k in 0..len(x) :: isfinite(x[k])) ==> (forall k in 0..len(x) :: isfinite(x[k]))
 //@   assigns x[*]
 
 //@ assume func sort.Float64sAreSorted
@@ -248,6 +249,7 @@ package stats
 //@ assume func sort.Sort
 //@   trusted standard library: performs a sequence of data.Swap calls that leaves data ordered by data.Less
 //@   ensures sortedF(ptrcast(data, sampleSorter).xs)
+//@   ensures old(forall k in 0..len(ptrcast(data, sampleSorter).xs) :: isfinite(ptrcast(data, sampleSorter).xs[k])) ==> (forall k in 0..len(ptrcast(data, sampleSorter).xs) :: isfinite(ptrcast(data, sampleSorter).xs[k]))
 //@   ensures old(nonneg(ptrcast(data, sampleSorter).weights)) ==> nonneg(ptrcast(data, sampleSorter).weights)
 //@   assigns ptrcast(data, sampleSorter).xs[*], ptrcast(data, sampleSorter).weights[*]
 
@@ -1119,19 +1121,20 @@ package stats
 //@   assigns nothing
 
 // Restatements for SampleCI (model xreal)
-//@ assume func Sample.Quantile@xreal
+//@ func Sample.Quantile@xreal
 //@   deterministic
 //@   model xreal
-//@   trusted restatement: only determinism and the frame are used (the contract is proved in model real)
-//@   ensures true
+//@   requires wfSample(s)
+//@   ensures [empty] len(s.Xs) == 0 ==> isnan(result)
+//@   loop 1 (i) invariant i >= 0
 //@   assigns nothing
 //@ func Sample.Copy@xreal
 //@   model xreal
-//@   ensures result != nil && fresh(result) && fresh(result.Xs) && (!isnil(s.Weights) ==> fresh(result.Weights)) && same(result.Xs, s.Xs) && (isnil(s.Weights) ==> isnil(result.Weights)) && result.Sorted == s.Sorted
+//@   ensures result != nil && fresh(result) && fresh(result.Xs) && (!isnil(s.Weights) ==> fresh(result.Weights)) && same(result.Xs, s.Xs) && (isnil(s.Weights) ==> isnil(result.Weights)) && (!isnil(s.Weights) ==> !isnil(result.Weights) && same(result.Weights, s.Weights)) && result.Sorted == s.Sorted
 //@   assigns nothing
-//@ assume func Sample.Sort@xreal
+//@ func Sample.Sort@xreal
 //@   model xreal
-//@   trusted restatement of the contract proved in model real
+//@   requires s != nil && wfSample(*s) && (forall k in 0..len(s.Xs) :: isfinite(s.Xs[k]))
 //@   ensures s.Sorted && sortedF(s.Xs) && result == s && len(s.Xs) == old(len(s.Xs)) && region(s.Xs) == old(region(s.Xs)) && region(s.Weights) == old(region(s.Weights)) && offset(s.Xs) == old(offset(s.Xs)) && (forall k in 0..len(s.Xs) :: isfinite(s.Xs[k]))
 //@   assigns s.Sorted, s.Xs[*], s.Weights[*]
 
